@@ -13,6 +13,21 @@ Every point is handed over through ONE caller-owned buffer that the harness over
 call (an aliased database key would follow it).  A state is the content of the real database (+ the lazily
 computed normalization flag of the design space); histories reaching the same database are merged.
 
+Tiers (every pass is complete within its bound; the menus are in the evidence):
+  quick     depth 3; switch vectors with <= 1 non-default switch on a menu of 11 operations (16 on the layouts whose
+            third point is special: lb == ub, integers), vectors with exactly 2 non-default switches on a core menu of
+            9 operations (f/g x value/Jacobian x 2 points + one evaluate_functions through the conversion path).
+  thorough  depth 3 on the full switch product (128 vectors): 20 operations (3 points, 8 evaluate_functions variants)
+            for <= 2 non-default switches, the quick menu for the others; depth 4 on the full switch product with the
+            core menu.
+With the database off no state persists between calls: those searches close at depth 2 (one state).
+
+Cost.  The siblings of a state are executed on ONE World that is put back to a snapshot of (database content, model,
+lazy normalization flag, counters) instead of being rebuilt for every transition (x3 faster).  Safety net: every
+history of one operation and every history that shows a violation is re-executed on a World built from scratch by
+replaying the history, and must give the same canonical state and the same violations ("harness-restore-mismatch"
+otherwise); ``replay`` always rebuilds from scratch.
+
 Oracle = the reference model of DESIGN.md section 5 (plain dictionaries):
   * x = round?(phys(p)) with phys the affine map of the bounded float components written out here,
   * returned value  = F(x)            (F = the harness polynomial, also what the user's callable computes),
@@ -557,8 +572,10 @@ class Spec:
             if changed:
                 key = changed[0]
             else:
+                # the database did not change: every storable requested name was already recorded under the key used
+                storable = [(r if what == "val" else "@" + r) for r, what in reqs if what == "val" or sw["store_jac"]]
                 in_model = [c for c in cands if c.tobytes() in w.model]
-                full = [c for c in in_model if all((r if what == "val" else "@" + r) in w.model[c.tobytes()]["names"] for r, what in reqs)]
+                full = [c for c in in_model if all(n in w.model[c.tobytes()]["names"] for n in storable)]
                 key = (full or in_model or cands)[0]
         else:
             key = cands[0]
